@@ -193,7 +193,7 @@ def batch(prop, tier, batch_seed, runs=None, wall=None, workers=None, write_evid
     d_runs, d_wall = tcfg.get(prop, tcfg["default"])
     runs = d_runs if runs is None else runs
     wall = d_wall if wall is None else wall
-    workers = workers or min(16, os.cpu_count() or 1)
+    workers = workers or int(os.environ.get("BIOSIM_WORKERS") or 0) or min(16, os.cpu_count() or 1)
     chunk = CHUNK.get(prop, CHUNK["default"])
     print(f"biosim property={prop} tier={tier} VERIF_SEED={batch_seed} runs<={runs} wall<={wall}s workers={workers} src={os.environ.get('BIOBALM_SRC', '/repo')}", flush=True)
 
